@@ -5,7 +5,7 @@ import re
 
 import contracts.schema as SCH
 import spec.typealgebra as TA
-from vf import engine_a, pathcheck, schemas
+from vf import engine_a, engine_p, pathcheck, schemas
 from vf.pyvc.spec import ADT
 from vf.pyvc.verify import prove_lemma
 from vf.report import MachineryDefect, Run
@@ -277,6 +277,7 @@ def check(tier, seed):
     run.sample({"violation": INVALID[12][0], "sdl": INVALID[12][1]})
     run.trusted("spec/typealgebra.valid_impl_type == IsValidImplementationFieldType / AreTypesCompatible of the specification")
     run.trusted("possible-type membership (Schema.is_possible_type) as an uninterpreted relation in the covariance proof")
+    engine_p.run(run, 'C13')
     return run.finish("other", "deductive: Schema.is_subtype == the specification's covariance relation for all type expressions (induction through its own "
                                "contract + reflexivity lemma by structural induction); path-wise: every mutator resets the memoised verdict; bounded: "
                                "rule-violation injection, order independence, names, re-validation histories",
